@@ -7,6 +7,7 @@ From SU.Model Require Import Midi.
 From SU.Spec Require Import MidiSpec.
 From SU.Props Require C18.
 From SU.Proofs Require Import MidiExtraProofs.
+From SU.Proofs Require Import MidiKillers.
 Open Scope Z_scope.
 
 (** pitch bend on the listened channel from ANY state: only the bend output changes *)
@@ -58,9 +59,18 @@ Theorem C18_unknown_controller_ignored : forall r c v,
   handle_cc r c v = r.
 Proof. exact C18_unknown_controller_ignored. Qed.
 
+(** every one of the 16384 bend values: the rounded quotient (x - 8192) / 8191 above centre, / 8192 below *)
+Theorem C18_pitch_bend_value : forall x, 0 <= x <= 16383 ->
+  let v := x - 8192 in
+  fin (value14_to_f32 (x / 128) (x mod 128)) /\
+  R32 (value14_to_f32 (x / 128) (x mod 128))
+  = rnd (IZR v / IZR (if 0 <? v then 8191 else 8192)).
+Proof. exact pitch_bend_value. Qed.
+
 Print Assumptions C18_pitch_bend_any_state.
 Print Assumptions C18_pitch_bend_views.
 Print Assumptions C18_other_channel_cc.
 Print Assumptions C18_other_channel_pitch_bend.
 Print Assumptions C18_all_notes_off.
 Print Assumptions C18_unknown_controller_ignored.
+Print Assumptions C18_pitch_bend_value.
